@@ -39,6 +39,7 @@ class Mon:
         self.close_returned = False
         self.started_after_close = []
         self.violations = []
+        self.pool = None
 
     def worker_started(self, w):
         with self.lock:
@@ -113,6 +114,7 @@ def controlled_run(P, cfg, choices, strategy):
     def accept_thread():
         pool = S.Pool()
         shared["pool"] = pool
+        mon.pool = pool
         shared["pool_ready"].set()
         for j in range(njobs):
             with mon.lock:
@@ -185,6 +187,18 @@ def judge(cfg, res, mon, rec, pay):
         if j not in refused_ids and n == 0 and not closed:
             rec.violation("accepted-job-never-run", "job %d was accepted by process() but never executed (no close involved); blocked=%r cfg=%r" % (j, res.blocked, cfg), pay)
             return False
+    if not closed and mon.pool is not None:
+        # quiescence without close(): every job has ended, the workers are parked or gone. The pool's books must say so:
+        # nobody busy, nobody listed who has exited, and the listed workers are exactly the live ones
+        pool = mon.pool
+        busy, idle = list(pool.busy), list(pool.idle)
+        dead = [w for w in busy + idle if id(w) in exited]
+        live = [w for w in started if id(w) not in exited]
+        if busy or dead or len(idle) != len(live):
+            rec.violation("pool-accounting-wrong", "at quiescence (all %d accepted jobs ended) the pool lists %d busy and %d idle workers, %d of the listed have exited, "
+                          "%d worker threads are alive; cfg=%r" % (accepted, len(busy), len(idle), len(dead), len(live), cfg), pay)
+            return False
+        rec.count("accounting_at_quiescence_ok")
     if closed:
         rec.count("closes_completed")
         stranded = [i for i, w in enumerate(started) if id(w) not in exited and id(w) not in retired]
